@@ -748,6 +748,7 @@ func runC20(c *Ctx) {
 		}
 	}
 	mapReduceKeyFilter = ""
+	checkResultsUsedOnlyWithoutError(c, "Z11")
 }
 
 // clientAxioms adds: data returned by clientConn.sendPacket with a nil error, and result.data of a
@@ -1621,4 +1622,100 @@ func checkRequestConstructorErrorExamined(c *Ctx, rule string) {
 		}
 	}
 	c.check(good, rule, key, p.Pos(ctor.Pos()), "the error of newPacketFromType is tested and the body decoder lies on its nil side", "the body decoder of the request packet can be called although newPacketFromType failed (its error is not what is tested): every type byte that is no request dereferences a nil packet and panics")
+}
+
+// checkResultsUsedOnlyWithoutError (C20.Z11): a client function of this package that returns (value, error) returns a
+// nil value with its errors (Lstat: `return nil, err`).  In client code, a pointer or interface result of such a call is
+// dereferenced — a method called on it, a field read — only where the call's error is known to be nil (or the value
+// itself was tested).  `err == nil || fi.IsDir()` evaluates fi.IsDir() exactly when there was an error: a refused or
+// malformed reply panics the caller.
+func checkResultsUsedOnlyWithoutError(c *Ctx, rule string) {
+	p := c.P
+	n := 0
+	for _, fn := range p.LibFuncs() {
+		if outermost(fn).Package() != p.Sftp || !isClientSide(fn) {
+			continue
+		}
+		eachInstr(fn, func(in ssa.Instruction) {
+			call, ok := in.(*ssa.Call)
+			if !ok {
+				return
+			}
+			callee := call.Call.StaticCallee()
+			if callee == nil || !inModule(callee) || callee.Blocks == nil {
+				return
+			}
+			res := callee.Signature.Results()
+			if res.Len() != 2 || !isErrorType(res.At(1).Type()) {
+				return
+			}
+			switch res.At(0).Type().Underlying().(type) {
+			case *types.Pointer, *types.Interface:
+			default:
+				return
+			}
+			// only callees that do hand back a nil value together with an error
+			nilWithErr := false
+			eachInstr(callee, func(x ssa.Instruction) {
+				if r, ok := x.(*ssa.Return); ok && len(r.Results) == 2 && isNilConst(r.Results[0]) && !isNilConst(r.Results[1]) {
+					nilWithErr = true
+				}
+			})
+			if !nilWithErr {
+				return
+			}
+			var v, e *ssa.Extract
+			for _, r := range *call.Referrers() {
+				if ex, ok := r.(*ssa.Extract); ok {
+					if ex.Index == 0 {
+						v = ex
+					} else {
+						e = ex
+					}
+				}
+			}
+			if v == nil || e == nil || v.Referrers() == nil {
+				return
+			}
+			errTests := nilTests(e)
+			valTests := nilTests(v)
+			if len(errTests) == 0 && len(valTests) == 0 {
+				return // handed on as a pair, not examined here
+			}
+			for _, r := range *v.Referrers() {
+				deref := false
+				switch x := r.(type) {
+				case *ssa.Call:
+					deref = x.Call.IsInvoke() && x.Call.Value == ssa.Value(v)
+					if !deref && x.Call.StaticCallee() != nil && x.Call.StaticCallee().Signature.Recv() != nil && len(x.Call.Args) > 0 && x.Call.Args[0] == ssa.Value(v) {
+						if _, isPtr := v.Type().Underlying().(*types.Pointer); isPtr {
+							deref = false // a method on a pointer receiver may accept nil; not judged
+						}
+					}
+				case *ssa.FieldAddr:
+					deref = x.X == ssa.Value(v)
+				case *ssa.UnOp:
+					deref = x.Op == token.MUL && x.X == ssa.Value(v)
+				}
+				if !deref {
+					continue
+				}
+				n++
+				safe := false
+				for _, nt := range errTests {
+					if nt.isNil != nil && nt.isNil != nt.nonNil && (nt.isNil == r.Block() || nt.isNil.Dominates(r.Block())) && edgeOnly(nt.iff.Block(), nt.isNil) {
+						safe = true
+					}
+				}
+				for _, nt := range valTests {
+					if nt.nonNil != nil && nt.isNil != nt.nonNil && (nt.nonNil == r.Block() || nt.nonNil.Dominates(r.Block())) && edgeOnly(nt.iff.Block(), nt.nonNil) {
+						safe = true
+					}
+				}
+				c.check(safe, rule, fmt.Sprintf("result of %s used in %s only without error", calleeName(&call.Call), fnName(fn)), p.Pos(r.Pos()), "behind err == nil (or a nil test of the value)",
+					"the value returned by "+calleeName(&call.Call)+" is dereferenced where its error may be non-nil (the value is then nil): a refused or malformed reply panics the caller")
+			}
+		})
+	}
+	c.check(n >= 3, rule, "dereferenced results of client calls", "?", fmt.Sprintf("%d uses", n), fmt.Sprintf("only %d uses found", n))
 }
